@@ -182,9 +182,9 @@ def r10_5(run, model):
 
 
 def run(run, model):
-    r10_1(run, model)
-    r10_2(run, model)
-    r10_3(run, model)
-    r10_4(run, model)
-    r10_5(run, model)
+    run.try_rule(r10_1, model)
+    run.try_rule(r10_2, model)
+    run.try_rule(r10_3, model)
+    run.try_rule(r10_4, model)
+    run.try_rule(r10_5, model)
     run.assume("Go's sized integer/float types implement wrap-around, truncating division and IEEE rounding (outside the repository)")
